@@ -330,4 +330,53 @@ def walkHost (c : WCtx) (cls id : Bytes) (mode : Nat) : Host AO ASt where
   truthy := fun _ => true
   eqHost := aEq
 
+/-! ### the walker interpreted as a whole
+
+`recHost … f`: like `walkHost`, but the walker methods called on `self` are the *translated* methods again, interpreted under
+`recHost … (f - 1)` — `f` bounds the depth of method calls (two per nesting level of groups). `_set_attribute_bitfield` and
+`_set_attribute_cfgval` stay the model's `wBits` / `wCfgVal` (their own ties are `Proofs/CodeBits.lean`, `Proofs/CodeCfgVal.lean`,
+over hosts of their own). -/
+
+def mSetAttr : Name := 0x5f7365745f617474726962757465
+def mSingle : Name := 0x5f7365745f6174747269627574655f73696e676c65
+def mBitfield : Name := 0x5f7365745f6174747269627574655f6269746669656c64
+def mGroup : Name := 0x5f7365745f6174747269627574655f67726f7570
+def mCfgval : Name := 0x5f7365745f6174747269627574655f63666776616c
+def mCalc : Name := 0x5f63616c635f6e756d5f72657065617473
+
+def recMcall (c : WCtx) (cls id : Bytes) (mode : Nat) (F : Nat) :
+    Nat → V AO → Name → List (V AO) → List (Name × V AO) → ASt → X AO (V AO) × ASt
+  | f, obj, m, args, kw, st =>
+    match obj with
+    | .host .self =>
+      (match f with
+       | 0 => if m = mSetAttr ∨ m = mSingle ∨ m = mGroup ∨ m = mCalc then (raiseX xFuel, st) else aMcall c obj m args kw st
+       | f'+1 =>
+         let H : Host AO ASt := { walkHost c cls id mode with mcall := recMcall c cls id mode F f' }
+         if m = mSetAttr then runFn H F fn_UBXMessage__set_attribute (.host .self :: args) st
+         else if m = mSingle then runFn H F fn_UBXMessage__set_attribute_single (.host .self :: args) st
+         else if m = mGroup then runFn H F fn_UBXMessage__set_attribute_group (.host .self :: args) st
+         else if m = mCalc then runFn H F fn_UBXMessage__calc_num_repeats (.host .self :: args) st
+         else aMcall c obj m args kw st)
+    | _ => aMcall c obj m args kw st
+
+def recHost (c : WCtx) (cls id : Bytes) (mode : Nat) (F f : Nat) : Host AO ASt :=
+  { walkHost c cls id mode with mcall := recMcall c cls id mode F f }
+
+/-- a host that is `walkHost` except, possibly, for the methods called on `self` -/
+structure WalkLike (c : WCtx) (cls id : Bytes) (mode : Nat) (H : Host AO ASt) : Prop where
+  glob : H.glob = aGlob
+  call : H.call = aCall c
+  attr : H.attr = aAttr c cls id mode
+  setattr : H.setattr = aSetattr
+  index : H.index = aIndex
+  contains : H.contains = aContains c
+  eqHost : H.eqHost = aEq
+  mcall_kw : ∀ m args kw st, H.mcall (.host .kwargs) m args kw st = aMcall c (.host .kwargs) m args kw st
+  mcall_dict : ∀ items m args kw st, H.mcall (.host (.dict items)) m args kw st = aMcall c (.host (.dict items)) m args kw st
+  mcall_bitfield : ∀ args kw st, H.mcall (.host .self) 0x5f7365745f6174747269627574655f6269746669656c64 args kw st
+      = aMcall c (.host .self) 0x5f7365745f6174747269627574655f6269746669656c64 args kw st
+  mcall_cfgval : ∀ args kw st, H.mcall (.host .self) 0x5f7365745f6174747269627574655f63666776616c args kw st
+      = aMcall c (.host .self) 0x5f7365745f6174747269627574655f63666776616c args kw st
+
 end Ubx.Py
